@@ -48,6 +48,7 @@ type Prog struct {
 	repo          string
 	verif         string
 	fnByName      map[string]*ssa.Function
+	extByName     map[string]*ssa.Function // standard-library / dependency functions (for trusted method contracts)
 	astFiles      map[*ssa.Function]*ast.File
 }
 
@@ -70,7 +71,7 @@ func loadProg(repo, verif string, pkgPatterns []string) (*Prog, error) {
 		Specs: map[string]*SpecFile{}, OpaqueDecl: map[string]string{}, GhostDecls: map[string]*Sort{}, globals: map[*ssa.Global]int64{}, funcs: map[*ssa.Function]int64{},
 		closureFn: map[int]*ssa.Function{}, constTables: map[*ssa.Global]map[int64]*Term{}, mutated: map[*ssa.Global]bool{},
 		strConsts: map[string]int64{}, srcCache: map[string][]byte{}, tagTypes: map[int64]types.Type{},
-		repo: repo, verif: verif, fnByName: map[string]*ssa.Function{}}
+		repo: repo, verif: verif, fnByName: map[string]*ssa.Function{}, extByName: map[string]*ssa.Function{}}
 	for _, sp := range prog.AllPackages() {
 		p.spkgs[sp.Pkg.Path()] = sp
 	}
@@ -85,6 +86,10 @@ func loadProg(repo, verif string, pkgPatterns []string) (*Prog, error) {
 	for fn := range ssautil.AllFunctions(prog) {
 		if fn.Pkg != nil && strings.HasPrefix(fn.Pkg.Pkg.Path(), modPath) {
 			p.fnByName[fnName(fn)] = fn
+		} else if fn.Pkg != nil && fn.Parent() == nil {
+			if _, dup := p.fnByName[fnName(fn)]; !dup {
+				p.extByName[fnName(fn)] = fn
+			}
 		}
 	}
 	p.scanGlobals()
@@ -236,6 +241,11 @@ func (p *Prog) funcOfObj(o *Term) *ssa.Function {
 func (p *Prog) globalPtr(name string) Val {
 	// name like "sm4.IV"
 	i := strings.LastIndex(name, ".")
+	if sp, ok := p.spkgs[name[:i]]; ok {
+		if g, ok := sp.Members[name[i+1:]].(*ssa.Global); ok {
+			return Val{T: g.Type(), L: []*Term{p.globalObj(g), BVConst(0, 64)}}
+		}
+	}
 	for path, sp := range p.spkgs {
 		if strings.HasPrefix(path, modPath) && sp.Pkg.Name() == name[:i] {
 			if g, ok := sp.Members[name[i+1:]].(*ssa.Global); ok {
@@ -490,6 +500,9 @@ func (p *Prog) implementers(c *ssa.CallCommon) []types.Type {
 	seen := map[string]bool{}
 	for name := range p.Contracts {
 		fn := p.fnByName[name]
+		if fn == nil {
+			fn = p.extByName[name]
+		}
 		if fn == nil || fn.Signature.Recv() == nil || fn.Name() != c.Method.Name() {
 			continue
 		}
